@@ -78,6 +78,10 @@ func TestVerif_C09_racefocus(t *testing.T) {
 	iters := verifh.N(300, 4000)
 	jarOK := c09ForceKnownRacy() || c09FieldGuarded(t, "AltSvcJar.entries")
 	pendOK := c09ForceKnownRacy() || c09FieldGuarded(t, "Transport.pendingAltSvcs")
+	h3TransportOK := c09ForceKnownRacy() || c09FieldGuarded(t, "RoundTripper.transport")
+	if !h3TransportOK {
+		s.Count("skipped-known-racy:http3.RoundTripper.dial(two alternative hosts)")
+	}
 
 	// (a) jar
 	if jarOK {
@@ -156,6 +160,11 @@ func TestVerif_C09_racefocus(t *testing.T) {
 			tr := cl.GetTransport()
 			// three authorities that all resolve to loopback; the alternative is the live h3 origin
 			auths := []string{"127.0.0.1:1", "127.0.0.1:2", "localhost:3"}
+			if !h3TransportOK {
+				// finding C09-4: dial goroutines for DIFFERENT alternative hosts race on the lazily
+				// created quic.Transport; with one alternative host there is a single dial
+				auths = []string{"127.0.0.1:1", "127.0.0.1:2", "127.0.0.1:3"}
+			}
 			// what Transport.roundTrip does for every https request before Alt-Svc is ever
 			// consulted: it initialises the HTTP/3 round tripper (see finding C09-3)
 			if pre, e := http.NewRequest("GET", "https://127.0.0.1:1/x", nil); e == nil {
